@@ -13,7 +13,8 @@ into an *order of execution* sorts it by a key that is injective on the elements
 the result depends on the elements only.
 
 **The whole run** (`declaration_order_free`, `…_run`): two interpreters whose statecharts differ
-only in the order in which sibling states and transitions were declared (`ChartPerm`), started
+only in the order in which states and transitions were declared or registered (`ChartPerm`:
+the lists of states, parent entries, children and transitions are permutations of each other), started
 from related states, return the same macro step — consumed event, transitions, exit/entry order,
 sent events — and reach related states (equal configuration, queues, times, context, outside world;
 history memories equal as maps), or fail with the same exception; by a relational Hoare logic over
